@@ -116,6 +116,13 @@ func runC17(c *Ctx) {
 	c17Listing(c, reg)
 	c17Builtins(c)
 	c17FailClosed(c, reg)
+	// the chain starts where a style string names a decoration: the auto constructors hand every decoration
+	// section of the style, as written and even when empty, to SetDecorationNamed (C19's R19.3) - a name that is
+	// dropped on the way ("texttable." cut so that the empty name is never looked up) renders with the default
+	// instead of refusing
+	importPremises(c, "R17.4", "style-names-the-decoration premise ", "an unknown (or empty) name given in a style string would never reach the lookup", func(o *Ob) bool {
+		return o.Rule == "R19.3" && !strings.Contains(o.Construct, "premise")
+	}, func() { runC19(c) })
 }
 
 func accessKind(in ssa.Instruction) string {
